@@ -288,8 +288,8 @@ func c14GlobJudge(res *lib.Result, p, s string, impl, model, spec bool) {
 			What:  "Resources.Match differs from Model.Glob.match",
 			Input: in, Impl: fmt.Sprint(impl), Model: fmt.Sprint(model)})
 	}
-	if model != spec && !hasStar {
-		res.Fail(lib.Failure{Kind: "model-vs-spec", Signature: "glob", What: "Model.Glob.match differs from Spec.Glob.G on a star-free subject (contradicts match_iff_glob_partial)",
+	if model != spec {
+		res.Fail(lib.Failure{Kind: "model-vs-spec", Signature: "glob", What: "Model.Glob.match differs from Spec.Glob.G (contradicts match_iff_glob)",
 			Input: in, Model: fmt.Sprintf("model=%v spec=%v", model, spec)})
 	}
 }
@@ -322,7 +322,7 @@ func c14Glob(a lib.Args, res *lib.Result) error {
 		c14GlobJudge(res, p, s, impl, out[0][0] == 't', out[0][1] == 't')
 		return nil
 	}
-	// corpus (minimal failing inputs first)
+	// corpus (the former witnesses of glob:subject-contains-star first; fixed in 4562263)
 	corpus := [][2]string{{"*", "*a"}, {"a*", "a*b"}, {"*b", "*ab"}, {"b/*", "b/*x"}, {"*", ""}, {"", ""}, {"a*b?c", "axxbbybzc"},
 		{"*a*b", "aabab"}, {"?*", ""}, {"**", "a"}, {"a*", "a"}, {"*?", "ab"}, {"?", "*"}, {"*", "*"}, {"a", "?"}, {"*a", "*a"}}
 	// exhaustive rows
@@ -562,10 +562,9 @@ func c14Matchers(a lib.Args, res *lib.Result) error {
 		}
 		model, spec := out[i][0] == 't', out[i][1] == 't'
 		in := map[string]interface{}{"check": "matchers", "kind": c.kind, "set": c.set, "probe": c.probe}
-		known := c.kind == "resource" && strings.Contains(c.probe, "*")
 		if c.impl != spec {
 			sig := c.kind + "-match:other"
-			if known {
+			if c.kind == "resource" && strings.Contains(c.probe, "*") {
 				sig = "glob:subject-contains-star"
 			}
 			res.Fail(lib.Failure{Kind: "property", Signature: sig, What: "real " + c.kind + " matcher differs from Spec.Policy", Input: in,
@@ -575,7 +574,7 @@ func c14Matchers(a lib.Args, res *lib.Result) error {
 			res.Fail(lib.Failure{Kind: "correspondence", Signature: c.kind + "-match", What: "real " + c.kind + " matcher differs from Model.Policy", Input: in,
 				Impl: fmt.Sprint(c.impl), Model: fmt.Sprint(model)})
 		}
-		if model != spec && !known {
+		if model != spec {
 			res.Fail(lib.Failure{Kind: "model-vs-spec", Signature: c.kind + "-match", What: "Model.Policy matcher differs from Spec.Policy", Input: in,
 				Model: fmt.Sprintf("model=%v spec=%v", model, spec)})
 		}
@@ -643,10 +642,9 @@ func c14EvalJudge(res *lib.Result, doc string, pol []c14Stmt, q c14Query, impl, 
 		resource += "/" + q.object
 	}
 	in := map[string]interface{}{"check": "eval", "policy": doc, "who": q.who, "bucket": q.bucket, "object": q.object, "action": q.act}
-	known := strings.Contains(resource, "*")
 	if impl != spec {
 		sig := "eval:other"
-		if known {
+		if strings.Contains(resource, "*") {
 			sig = "glob:subject-contains-star"
 		}
 		res.Fail(lib.Failure{Kind: "property", Signature: sig, What: "VerifyBucketPolicy differs from Spec.Policy.Allows (deny-overrides over Spec.Glob.G)",
@@ -656,8 +654,8 @@ func c14EvalJudge(res *lib.Result, doc string, pol []c14Stmt, q c14Query, impl, 
 		res.Fail(lib.Failure{Kind: "correspondence", Signature: "VerifyBucketPolicy", What: "VerifyBucketPolicy differs from Model.Policy.verify on the decoded policy",
 			Input: in, Impl: fmt.Sprintf("allowed=%v", impl), Model: fmt.Sprintf("allowed=%v", model)})
 	}
-	if model != spec && !known {
-		res.Fail(lib.Failure{Kind: "model-vs-spec", Signature: "eval", What: "Model.Policy.verify differs from Spec.Policy.allowsB on a star-free resource",
+	if model != spec {
+		res.Fail(lib.Failure{Kind: "model-vs-spec", Signature: "eval", What: "Model.Policy.verify differs from Spec.Policy.allowsB (contradicts verify_iff)",
 			Input: in, Model: fmt.Sprintf("model=%v spec=%v", model, spec)})
 	}
 }
@@ -726,7 +724,7 @@ func c14Eval(a lib.Args, res *lib.Result) error {
 		}
 		n = 0
 	} else {
-		// corpus: Deny on b/* is bypassed by a key starting with '*'
+		// corpus: former witness of glob:subject-contains-star (fixed in 4562263) — a Deny on b/* must apply to the key `*x`
 		w := `{"Statement":[{"Effect":"Allow","Principal":"*","Action":"s3:GetObject","Resource":"arn:aws:s3:::b/?x"},{"Effect":"Deny","Principal":"*","Action":"s3:GetObject","Resource":"arn:aws:s3:::b/*"}]}`
 		if err := add(w, []c14Query{{"alice", "b", "*x", "s3:GetObject"}, {"alice", "b", "ax", "s3:GetObject"}}, "corpus"); err != nil {
 			return err
